@@ -21,7 +21,7 @@ operation yields its outcome and the history goes on after a failing one (`runG`
   C10_histories_with_failures / C10_builds_wf_with_failures
                             the decoded content / the well-formedness of every successful build (hypotheses of
                             `C01_build_decode'` / `C03_wf'`)
-  runG_of_run               the old statements are about the same machine: a history that `run` completes is completed by
+  runG_of_run               the statements about `run` are about the same machine: a history that `run` completes is completed by
                             `runG` with every outcome `ok`, the same arrays and the same final builder
 No hypothesis on schema or rows in the physical statements.
 -/
@@ -533,7 +533,7 @@ theorem C10_histories_with_failures (ext : Ext) (fields : List Field) (r0 : B) (
   exact C01.C01_build_decode' ext fields _ _ hschema hcov hrows hnar' h1
 
 /-- **C03 along histories with failing operations**: every build that succeeds returns well-formed arrays of the declared
-fields (the tightened `Spec.WF`: structurally valid AND of exactly the field's data type), one per field, each of exactly as
+fields (`Spec.WF`: structurally valid AND of exactly the field's data type), one per field, each of exactly as
 many rows as were added successfully since the previous successful build.  Hypotheses: those of `C01.C03_wf'` (incl.
 `hplain`: no metadata on a Map's entries field, known finding C03-map-entries-metadata), as in `C10_builds_wf`. -/
 theorem C10_builds_wf_with_failures (ext : Ext) (fields : List Field) (r0 : B) (h0 : newRoot fields = .ok r0)
@@ -551,7 +551,7 @@ theorem C10_builds_wf_with_failures (ext : Ext) (fields : List Field) (r0 : B) (
     (hsafe.imp (fun hs root0 hr => by rw [h0] at hr; cases hr; exact hs) id) hext
     (mem_trailing Lemmas.C03.SValOK _ [] (by simp) (OpsOK_take hrows i)) h1
 
-/-! ### the old statements are about the same machine -/
+/-! ### the statements about `run` are about the same machine -/
 
 /-- a history that `run` (Props/C10.lean: every operation succeeds) completes is completed by `runG` with every outcome
 `ok`, the builds returning the same arrays, in the same final builder: `run_oneShot`, `C10_histories`,
